@@ -42,10 +42,10 @@ func RegisterAggregateFunc(methodNm string, fun Aggregate) error {
 }
 
 func Max(data []ArgsType) string {
-	maxNumber := math.SmallestNonzeroFloat64
-	for _, d := range data {
+	maxNumber := 0.0
+	for i, d := range data {
 		f := d.Float()
-		if maxNumber < f {
+		if i == 0 || maxNumber < f {
 			maxNumber = f
 		}
 	}
